@@ -358,7 +358,8 @@ class Consumer(object):
         def _handle_shutdown_commit_failure(failure):
             """Handle failure of commit() attempted by shutdown"""
             if failure.check(OperationInProgress):
-                failure.value.deferred.addCallback(_commit_and_stop)
+                # If the commit in progress fails, so does the shutdown
+                failure.value.deferred.addCallbacks(_commit_and_stop, _handle_shutdown_commit_failure)
                 return
 
             self._shutdown_d, d = None, self._shutdown_d
